@@ -278,3 +278,47 @@ def r13_6_memo_keys(ctx: Ctx) -> RuleResult:
         else:
             rr.ok({"memo": mt.fn.qual, "table": mt.table, "key": mt.store_key, "value depends on": sorted(mt.deps)})
     return rr
+
+
+@rule("C13")
+def r13_7_mutable_keys(ctx: Ctx) -> RuleResult:
+    """A process-wide cache keyed by an object that can still be modified (a culture that is not read-only) returns data computed
+    from the key's earlier state: the answer then depends on whether the key was used before it was changed.  Every insertion into
+    a `_Cache` (or a memo table) whose key type offers `is_read_only` must be dominated by that test."""
+    from ..exc import facts_at
+    from ..memo import memo_tables
+
+    rr = RuleResult("R13.7", "shared caches are only filled for keys that can no longer change (key types with `is_read_only` are tested before insertion)", min_instances=1)
+    M, R = ctx.M, ctx.R
+    sites: list[tuple] = []
+    for f in set(M.func_of_node.values()):
+        if isinstance(f.node, ast.Lambda) or "_compatibility" in f.mod.rel:
+            continue
+        for c in own_nodes(f.node):
+            if isinstance(c, ast.Call) and isinstance(c.func, ast.Attribute) and c.func.attr == "get_or_add" and c.args:
+                tg, how = R.callees(c, f, count=False)
+                if any(t.cls is not None and t.cls.name == "_Cache" for t in tg) or "CACHE" in unparse(c.func.value).upper():
+                    sites.append((f, c, c.args[0]))
+    for mt in memo_tables(M):
+        if mt.table != "functools.cache" and "_compatibility" not in mt.fn.mod.rel and isinstance(mt.node, ast.Assign):
+            tgt = next((t for t in mt.node.targets if isinstance(t, ast.Subscript)), None)
+            if tgt is not None:
+                sites.append((mt.fn, mt.node, tgt.slice))
+    for f, node, key in sorted(sites, key=lambda x: (x[0].qual, getattr(x[1], "lineno", 0))):
+        rr.inst()
+        sc = R.scope(f)
+        try:
+            t = R.type_of(key, sc)
+        except Exception:  # noqa: BLE001
+            t = None
+        ts = t[1] if isinstance(t, tuple) and t[0] == "union" else [t]
+        mutable = [x for x in ts if isinstance(x, str) and M.cls(x, required=False) is not None and M.find_method(M.cls(x), "is_read_only") is not None]
+        if not mutable:
+            rr.ok({"fn": f.qual, "key": unparse(key)[:50], "key type": [x for x in ts if isinstance(x, str)] or "immutable / not a repo class"})
+            continue
+        k = unparse(key)
+        if (f"{k}.is_read_only", "truthy", "") in facts_at(node):
+            rr.ok({"fn": f.qual, "key": k, "guard": f"{k}.is_read_only"})
+        else:
+            rr.fail(f.qual, f"inserts into a shared cache under key `{k}` ({'/'.join(mutable)}) without first excluding keys that are not read-only: a culture modified after its first use keeps getting the stale entry", ctx.loc(f, node))
+    return rr
